@@ -52,7 +52,7 @@ Section AddrXmrProofs.
   Lemma decode_addr_bytes net ps pv pid payid P Q :
     bytes_ok net -> bytes_ok ps -> bytes_ok pv -> bytes_ok pid ->
     length ps = 32%nat -> length pv = 32%nat -> pdec ps = Some P -> pdec pv = Some Q ->
-    (pid = [] \/ (length pid = xmr_payid_len /\ payid = Some pid)) ->
+    ((pid = [] /\ payid = None) \/ (length pid = xmr_payid_len /\ payid = Some pid)) ->
     decode_addr (b58x_encode (addr_bytes net ps pv pid)) net payid = Ok (ps ++ pv).
   Proof.
     intros Hn Hs Hv Hp Ls Lv Ds Dv Hpid. unfold AddrXmr.decode_addr, AddrXmr.addr_bytes.
@@ -80,12 +80,11 @@ Section AddrXmrProofs.
     rewrite (pub_is_valid_32 G pdec ps P Ls Ds), (pub_is_valid_32 G pdec pv Q Lv Dv).
     assert (LB : length (ps ++ pv ++ pid) = (64 + length pid)%nat) by (rewrite !app_length; lia).
     rewrite LB.
-    destruct Hpid as [->|[Lp ->]].
+    destruct Hpid as [[-> ->]|[Lp ->]].
     - simpl. reflexivity.
-    - rewrite Lp. pose proof xmr_payid_len_8 as P8. rewrite P8.
-      replace (64 + 8 =? 2 * 32)%nat with false by reflexivity.
+    - rewrite Lp, Nat.eqb_refl. pose proof xmr_payid_len_8 as P8. rewrite P8.
       replace (64 + 8 =? 2 * 32 + 8)%nat with true by reflexivity.
-      rewrite <- P8, <- Lp, Nat.eqb_refl.
+      rewrite <- P8, <- Lp.
       replace (take_last (length pid) (ps ++ pv ++ pid)) with pid.
       2:{ rewrite app_assoc. symmetry. apply take_last_app. }
       rewrite list_eqb_refl. reflexivity.
@@ -105,7 +104,7 @@ Section AddrXmrProofs.
     { intros b Hb. unfold strip_pub_prefix. destruct (_ && _); [|exact Hb]. destruct b; [exact Hb|]. inversion Hb; auto. }
     apply (decode_addr_bytes net _ _ pid payid P Q); auto.
     - subst pid. destruct payid; [exact Hp|constructor].
-    - subst pid. destruct payid as [p|]; [right; split; auto|left; reflexivity].
+    - subst pid. destruct payid as [p|]; [right; split; auto|left; split; reflexivity].
   Qed.
 
   (* every refusal of the decoder is a ValueError *)
@@ -118,12 +117,11 @@ Section AddrXmrProofs.
       match type of H with bind ?x _ = _ => destruct x as [[]|e1] eqn:E1 end; cbn [bind] in H.
       + destruct (pub_is_valid _ _ _); [|inversion H; auto].
         destruct (pub_is_valid _ _ _); [|inversion H; auto]. discriminate.
-      + inversion H; subst. clear H.
-        destruct (_ =? _)%nat; [discriminate|].
-        destruct (_ =? _)%nat; [|inversion E1; auto].
-        destruct payid as [p|]; [|inversion E1; auto].
-        destruct (_ =? _)%nat; [|inversion E1; auto].
-        destruct (list_eqb _ _); [discriminate|inversion E1; auto].
+      + inversion H; subst. clear H. destruct payid as [p|].
+        * destruct (_ =? _)%nat; [|inversion E1; auto].
+          destruct (_ =? _)%nat; [|inversion E1; auto].
+          destruct (list_eqb _ _); [discriminate|inversion E1; auto].
+        * destruct (_ =? _)%nat; [discriminate|inversion E1; auto].
     - intros H; inversion H; subst.
       eapply (Lemmas.XmrB58.decode_err xb58_alph xb58_radix xb58_block_dec_max xb58_block_enc_max xb58_block_enc_lens); eauto.
       + apply xb58_enc_max_pos.
